@@ -76,8 +76,19 @@ def body_token(body):
     cf, pl = body[0], body[1]
     if isinstance(pl, str):
         return cf + pl[0]
-    return cf + "k" + ";".join(",".join([hx(h)] + [hx(k) + "=" + hx(v) for k, v in attrs])
+    return cf + "k" + ";".join(",".join([hx(h)] + [hx(k) if v is None else hx(k) + "=" + hx(v) for k, v in attrs])
                                for h, attrs in pl) if pl else cf + "e"
+
+
+def has_valueless_attr(ops):
+    """a registered link with an attribute without value (`</x>;rt`, legal RFC 6690): the model's links carry
+    key=value pairs only; such histories are judged by the oracle alone"""
+    for op in ops:
+        body = op[3] if op[0] == "R" else op[4] if op[0] in "UP" else None
+        if body and not isinstance(body[1], str):
+            if any(v is None for _, attrs in body[1] for _, v in attrs):
+                return True
+    return False
 
 
 def op_token(op):
@@ -195,7 +206,8 @@ class Impl:
         if isinstance(pl, str):
             payload = b"" if pl == "e" else GARBAGE[int(pl[1:] or 0) % len(GARBAGE)]
         else:
-            payload = ",".join("<%s>" % h + "".join(';%s="%s"' % (k, v) for k, v in attrs)
+            payload = ",".join("<%s>" % h + "".join((';%s' % k) if v is None else (';%s="%s"' % (k, v))
+                                                   for k, v in attrs)
                                for h, attrs in pl).encode()
         return cf, payload
 
@@ -374,10 +386,12 @@ class Reference:
                     return f"registration resource /reg/{op[1]}/ shows {token}, last written {want}"
             elif token == "E404" and key is not None:
                 return f"live registration {key} at /reg/{op[1]}/ answered 4.04"
-        elif k in "ES" and token.startswith("L["):
+        elif k in "ES":
             want = self.lookup(k, op[1])
             if want is not None and "L[" + want + "]" != token:
-                return f"lookup {op_token(op)} lists {token}, live registrations give L[{want}]"
+                if token.startswith("L["):
+                    return f"lookup {op_token(op)} lists {token}, live registrations give L[{want}]"
+                return f"lookup {op_token(op)} was answered {token} instead of listing L[{want}]"
         return ""
 
     # what the unfiltered lookups must show
@@ -414,14 +428,14 @@ class Reference:
                 if k in ("ep", "d"):
                     return v in e["params"].get(k, [])
                 if k == "rt":
-                    return any(ak == "rt" and v in av.split() for _, at in links for ak, av in at)
+                    return any(ak == "rt" and av is not None and v in av.split() for _, at in links for ak, av in at)
                 return e["href"] == v or any(h == v for h, _ in links)
 
             def link_ok(l, k, v):
                 if k in ("ep", "d"):
                     return v in e["params"].get(k, [])
                 if k == "rt":
-                    return any(ak == "rt" and v in av.split() for ak, av in l[1])
+                    return any(ak == "rt" and av is not None and v in av.split() for ak, av in l[1])
                 return l[0] == v or e["href"] == v
             if kind == "E":
                 if all(reg_ok(k, v) for k, v in conds):
@@ -566,6 +580,14 @@ def boundary_table(grace):
                         for dl in sorted({(t2 + eff + g) * TPS, (5 + first + g) * TPS}):
                             if dl - 1 > t2 * TPS and dl < 200000 * TPS:
                                 cases.append(around(pre, dl, elapsed=t2 * TPS))
+    # a registered link with a valueless attribute (legal link-format) must not disturb anybody's filtered lookups
+    LV = [["/x", [["rt", None]]], ["/y", [["obs", None], ["rt", "temp"]]]]
+    for first in (True, False):
+        regs = [reg("n1", lt=60), reg("n2", lt=60, links=LV)] if first else [reg("n2", lt=60, links=LV), reg("n1", lt=60)]
+        flt = [["E", [["rt", "temp"]]], ["S", [["rt", "temp"]]], ["E", [["rt", "zzz"]]], ["S", [["rt", "zzz"]]],
+               ["E", [["ep", "n1"]]], ["S", [["ep", "n2"]]], ["E", [["rt", "temp"], ["ep", "n1"]]]]
+        cases.append(regs + looks + flt + [["X", 2 if first else 1]] + looks + flt)
+        cases.append(regs + [["P", 1, REMOTES[0], [], LF(LV)]] + looks + flt)
     # every 4.xx kind on a new key, an existing key, POST and PUT; the directory before and after
     bad_queries = [[["lt", "abc"]], [["lt", ""]], [["lt", "1"], ["lt", "2"]], [["base", BASES[0]], ["base", BASES[1]]],
                    [["rt", "x"]], [["href", "/x"]], [["page", "0"]], [["count", "1"]], [["anchor", "/"]],
@@ -824,9 +846,12 @@ def run(env, rep):
     for src, ops in cases:
         out, verdict, vkey, stats, g = run_case(aiocoap, ops)
         case = {"ops": ops}
-        lines.append(f"C20 {g} {TPS} " + " ".join(op_token(op) for op in ops))
-        impl_outs.append(out)
-        recs.append(case)
+        if has_valueless_attr(ops):
+            rep.count("oracle-only:valueless-link-attribute")
+        else:
+            lines.append(f"C20 {g} {TPS} " + " ".join(op_token(op) for op in ops))
+            impl_outs.append(out)
+            recs.append(case)
         nontrivial = (stats["write_ok"] > 0 and (stats["e4xx"] > 0 or stats["expired"] > 0) and stats["listed"] > 0)
         rep.case(case, nontrivial=nontrivial, sample_every=150)
         rep.count("source=" + src)
